@@ -27,8 +27,8 @@ type kCase struct {
 }
 
 type kRes struct {
-	Calls  []struct{ K, R, O json.RawMessage }
-	Maps   []struct {
+	Calls []struct{ K, R, O json.RawMessage }
+	Maps  []struct {
 		F string
 		R json.RawMessage
 	}
